@@ -17,7 +17,7 @@ RULE = ("Hypothesis-generated training lists (short alphabets so that characters
         "guesser level is (a) the independent level formula over the tables loaded by the real load_rules and (b) for levels whose "
         "reference size is <= 20000, membership in the real MarkovCracker's output at exactly that level and at no other "
         "enumerated level, and (c) for those levels the generator's whole output against the independent reference enumeration of the level over the loaded tables; omen_pws_per_level.txt must equal the tally of the trainer's levels over the list. Non-trivial = a "
-        "candidate with a defined level >= 1 or a boundary length; distinct = hash of (ruleset options, candidate).")
+        "candidate with a defined level >= 1 or a boundary length; distinct = hash of (ruleset options, candidate). Scale part big_counts: lists of 70 000 / 400 000 passwords in which a length, an initial n-gram and a transition occur once.")
 ASSUMPTIONS = ["a run in which the trainer does not complete is skipped and counted"]
 
 _DIR = None
